@@ -114,6 +114,12 @@ impl Workspace {
   pub fn remove(&mut self, namespace: &str, name: &str) {
     self.definitions_by_namespace.remove(namespace);
     self.definitions_by_name.remove(name);
+    for definitions in &self.definitions {
+      if definitions.namespace() == namespace || definitions.name() == name {
+        self.definitions_by_namespace.remove(definitions.namespace());
+        self.definitions_by_name.remove(definitions.name());
+      }
+    }
     self.definitions.retain(|d| d.namespace() != namespace && d.name() != name);
     self.clear_model_evaluators();
   }
